@@ -442,7 +442,9 @@ class PatchedCounts(BinwisePatchwiseArray):
         if isinstance(item, int):
             item = [item]
 
-        return type(self)(self.binning, self.counts[:, item, item], auto=self.auto)
+        # index both patch axes separately, lists of indices would be broadcasted
+        counts = self.counts[:, item][:, :, item]
+        return type(self)(self.binning, counts, auto=self.auto)
 
     def get_array(self) -> NDArray:
         return self.counts
